@@ -345,8 +345,8 @@ class TrigR : public TriggeredEventReporter { public:
 
 static double dyadic(Rng& R, double T) { return std::ldexp((double)(1 + R.k((int)(T * 64))), -6); }
 
-static void modeTs(unsigned long long seed, int nscen, bool reportAll) {
-    Rng R{seed * 0x2545F4914F6CDD1DULL + 17};
+static void modeTs(unsigned long long seed, int nscen, bool reportAll, bool termVariant = false) {
+    Rng R{seed * 0x2545F4914F6CDD1DULL + (termVariant ? 23 : 17)};
     for (int sc = 0; sc < nscen; ++sc) {
         int kind = sc % 9;
         const double T = 2.0;
@@ -362,6 +362,23 @@ static void modeTs(unsigned long long seed, int nscen, bool reportAll) {
                                             h.w.rising = m != 1; h.w.falling = m != 2; h.w.window = 0.1; h.w.stage = 0;
                                             if (R.p(0.3)) { h.w.kind = 2; h.w.a = 2 + 6 * R.u(); h.w.b = 6 * R.u(); h.w.s = 0.5 * (R.u() - 0.5); } }
             hs.push_back(h);
+        }
+        if (termVariant) {
+            // several triggered handlers (and reporters) on ONE witness function, so that they are reported in the same event
+            // window; exactly one of them asks for termination, at a random position in the registration order; optionally a
+            // scheduled handler due earlier/later that may terminate too
+            hs.clear();
+            WSpec w; w.kind = R.p(0.7) ? 0 : 2; w.a = w.kind == 0 ? T * (0.1 + 0.6 * R.u()) : 2 + 6 * R.u(); w.b = w.kind == 0 ? 0 : 6 * R.u();
+            w.s = w.kind == 0 ? 0 : 0.5 * (R.u() - 0.5); w.rising = true; w.falling = true; w.window = 0.1; w.stage = 0;
+            int nt = 2 + R.k(3), termAt = R.k(nt);
+            if (R.p(0.4)) { HSpec p; p.cls = 0; p.action = R.k(3); p.interval = 0.375; hs.push_back(p); }
+            for (int i = 0; i < nt; ++i) {
+                HSpec h; h.cls = (i != termAt && R.p(0.25)) ? 5 : 2; h.interval = 0; h.w = w;
+                h.action = (i == termAt) ? 3 : (h.cls == 5 ? 0 : R.k(3));
+                hs.push_back(h);
+            }
+            if (R.p(0.3)) { HSpec l; l.cls = 1; l.action = R.p(0.5) ? 3 : 1; l.interval = 0; l.times.push_back(dyadic(R, T)); hs.push_back(l); }
+            nh = (int)hs.size();
         }
         for (int i = 0; i < nh; ++i) {
             const HSpec& h = hs[i];
@@ -401,6 +418,7 @@ static void modeTs(unsigned long long seed, int nscen, bool reportAll) {
         printInfo(RepPeek::rep(*integ));
         // targets
         std::vector<double> targets; { double t = tStart; int nt = 1 + R.k(3); for (int j = 0; j < nt; ++j) { t += R.p(0.5) ? dyadic(R, 1.0) : 0.05 + 0.9 * R.u(); targets.push_back(t); } }
+        if (termVariant) { targets.clear(); targets.push_back(tStart + 0.5 * T); targets.push_back(tStart + T); }   // long enough to reach the crossing
         int guard = 0; bool over = false;
         for (size_t ti = 0; ti < targets.size() && !over; ++ti) {
             printf("TARGET %a\n", targets[ti]);
@@ -415,7 +433,8 @@ static void modeTs(unsigned long long seed, int nscen, bool reportAll) {
                 printf("RET %s %a %a %d %a %a", stName(st), integ->getTime(), integ->getAdvancedTime(), (int)integ->isSimulationOver(), w[0], w[1]);
                 if (st == Integrator::ReachedEventTrigger) { const Array_<EventId>& ids = RepPeek2::trig(rp); printf(" %d", (int)ids.size()); for (auto id : ids) printf(" %d", (int)id); }
                 else printf(" 0");
-                printf(" Q %a %a\n", S.a->getOneQ(integ->getAdvancedState(), 0), S.b->getOneQ(integ->getAdvancedState(), 0));
+                printf(" Q %a %a TR %d\n", S.a->getOneQ(integ->getAdvancedState(), 0), S.b->getOneQ(integ->getAdvancedState(), 0),
+                       integ->isSimulationOver() ? (int)integ->getTerminationReason() : -1);
                 if (integ->isSimulationOver()) { over = true; break; }
                 if (st == Integrator::ReachedReportTime && integ->getTime() >= targets[ti]) break;
                 if (!reportAll) break;
@@ -497,6 +516,7 @@ int main(int argc, char** argv) {
     else if (mode == "fec") modeFec(seed, n);
     else if (mode == "loc") modeLoc(seed, n);
     else if (mode == "ts") modeTs(seed, n, argc > 4 && atoi(argv[4]) != 0);
+    else if (mode == "tsterm") modeTs(seed, n, argc > 4 && atoi(argv[4]) != 0, true);
     else if (mode == "sub2") modeSub2(seed, n);
     else { fprintf(stderr, "unknown mode\n"); return 2; }
     return 0;
